@@ -96,6 +96,12 @@ func Faults() {
 	budget(0)
 	if err != nil {
 		vx.Reach("C12.close_failed")
+		// between the failed Close and its retry the secret must not come back degraded: a read either fails or
+		// still sees the original bytes (the pages may already have been wiped)
+		s.WithBytes(func(b []byte) error {
+			vx.Assert("C12.read_after_failed_close_is_an_error_or_the_original", vx.BytesEq(b, keep))
+			return nil
+		})
 		err = s.Close()
 		vx.Assert("C12.failed_close_can_be_retried", err == nil)
 	}
